@@ -1396,6 +1396,9 @@ static void MPSreadBounds(MPSInput& mps, LPColSetBase<Rational>& cset, const Nam
          return;
       }
 
+      if(mps.field1() == nullptr)
+         break;
+
       // Is the value field used ?
       if((!strcmp(mps.field1(), "LO"))
             || (!strcmp(mps.field1(), "UP"))
